@@ -170,20 +170,26 @@ struct Cli {
 }
 
 fn clap_flags() -> Value {
+    // every flag spelling after every prior value of the process-wide choice (the flag is WRITTEN through, whatever was there)
     use clap::Parser;
     let mut out = Vec::new();
-    for args in [vec!["prog"], vec!["prog", "--color", "auto"], vec!["prog", "--color", "always"], vec!["prog", "--color", "never"], vec!["prog", "--color=always"],
-                 vec!["prog", "--color", "sometimes"], vec!["prog", "--color", "ALWAYS"], vec!["prog", "--color", "always-ansi"]] {
-        let res = match Cli::try_parse_from(args.iter()) {
-            Ok(cli) => {
-                let c = cli.color.as_choice();
-                cli.color.write_global();
-                let g = colorchoice::ColorChoice::global();
-                json!({"parsed":format!("{:?}", c),"global_after_write":format!("{:?}", g)})
-            }
-            Err(_) => json!("rejected"),
-        };
-        out.push(json!({"args":args,"result":res}));
+    let name = |c: colorchoice::ColorChoice| format!("{:?}", c);
+    for prior in [colorchoice::ColorChoice::Auto, colorchoice::ColorChoice::AlwaysAnsi, colorchoice::ColorChoice::Always, colorchoice::ColorChoice::Never] {
+        for args in [vec!["prog"], vec!["prog", "--color", "auto"], vec!["prog", "--color", "always"], vec!["prog", "--color", "never"], vec!["prog", "--color=always"],
+                     vec!["prog", "--color=auto"], vec!["prog", "--color=never"], vec!["prog", "--color", "sometimes"], vec!["prog", "--color", "ALWAYS"],
+                     vec!["prog", "--color", "always-ansi"], vec!["prog", "--color", ""]] {
+            prior.write_global();
+            let arg = if args.len() == 1 { "absent".to_string() } else if args.len() == 3 { args[2].to_string() } else { args[1].trim_start_matches("--color=").to_string() };
+            let (parsed, after) = match Cli::try_parse_from(args.iter()) {
+                Ok(cli) => {
+                    let c = cli.color.as_choice();
+                    cli.color.write_global();
+                    (name(c), name(colorchoice::ColorChoice::global()))
+                }
+                Err(_) => ("rejected".to_string(), name(colorchoice::ColorChoice::global())),
+            };
+            out.push(json!({"k":"clap","prior":name(prior),"arg":arg,"parsed":parsed,"global_after":after}));
+        }
     }
     json!(out)
 }
